@@ -114,8 +114,8 @@ def ctx_for(env, cfg, cid):
 def select(env, cfg, prog, x):
     d = discover(env, cfg)
     r = env.runner(cfg)
-    key = (id(r), r.starts)
-    if d["cur"] != (key, x.cid) or r.proc is None or r.proc.poll() is not None or r.ncases + 1 >= r.recycle:
+    key = r.epoch()
+    if d["cur"] != (key, x.cid):
         prog.call("ep_param_set", x.cid)
         prog.call("ep2_curve_set_twist", x.ttype)
         d["cur"] = (key, x.cid)
